@@ -481,4 +481,109 @@ theorem cn_Tnuc_close_2D (p : Par ℝ) (f : Flags) (hf : f.inplace = false) (hcf
   rw [e]
   linarith
 
+
+/-! ### 2D, every configuration (VISF included): one step's cooling with the evaporative term explicit -/
+
+open Snow.S2D in
+/-- ghost values above the top row in cooling step `i`: `T_top,j + q_e,j·dz/k_eff` with the evaporative heat
+flux `q_e,j` of the VISF configuration (0 for shelf / jacket and outside the vacuum window) -/
+noncomputable def topGhost2D (p : Par ℝ) (f : Flags) (i : ℕ) (T : Array ℝ) : Array ℝ :=
+  Array.ofFn (n := p.Nr) fun j =>
+    rd p.Nr T (p.Nz - 1) j.val +
+      S2D.qEvap (mkCtx p f) false ((mkCtx p f).dt * (i : ℝ)) T j.val * (mkCtx p f).dz / (mkCtx p f).k0
+
+open Snow.S2D Snow.C07 in
+/-- **2D maximum principle with evaporation**: one repaired cooling step keeps the coldest point at or
+above `min(old coldest point, shelf temperature, coldest top ghost value)` – the last term carries `q_e`. -/
+theorem coolStep2D_min_ge_general (p : Par ℝ) (f : Flags) (hf : f.inplace = false)
+    (hNz : 2 ≤ p.Nz) (hNr : 2 ≤ p.Nr) (hR : 0 < radius p)
+    (hstab : Stab (mkCtx p f).a0 (mkCtx p f).dz (mkCtx p f).dr
+      (p.K_shelf * (mkCtx p f).dz / (mkCtx p f).k0) ((mkCtx p f).Kw * (mkCtx p f).eSp / (mkCtx p f).k0))
+    (NtExp i : ℕ) (s : CoolSt ℝ) (hT : s.T.size = p.Nz * p.Nr) (Tsh : ℝ) :
+    Min.min (Min.min (Snow.minA s.T) Tsh) (Snow.minA (topGhost2D p f i s.T))
+      ≤ Snow.minA (coolStep2D p f NtExp i s Tsh).T := by
+  set c := mkCtx p f with hc
+  have hNpos : 0 < p.Nz * p.Nr := Nat.mul_pos (by omega) (by omega)
+  set qe := S2D.qEvap c false (c.dt * (i : ℝ)) s.T with hqe
+  have hstep : (coolStep2D p f NtExp i s Tsh).T = coolStep c false Tsh qe s.T := by
+    simp only [coolStep2D, coolStepSt, ← hc, hqe, ofNat'_real]
+    have : c.f.inplace = false := by simp [hc, mkCtx, hf]
+    rw [this]
+  rw [hstep]
+  have hgsz : (topGhost2D p f i s.T).size = p.Nr := by simp [topGhost2D]
+  have hg : ∀ j, j < p.Nr → aget (topGhost2D p f i s.T) j = rd c.Nr s.T (c.Nz - 1) j + qe j * c.dz / c.k0 := by
+    intro j hj
+    unfold topGhost2D
+    rw [aget_ofFn _ _ j hj]
+    rfl
+  set lo := Min.min (Min.min (Snow.minA s.T) Tsh) (Snow.minA (topGhost2D p f i s.T)) with hlo
+  set hi := Max.max (Max.max (Snow.maxA s.T) Tsh) (Snow.maxA (topGhost2D p f i s.T)) with hhi
+  have H : SweepHyp c Tsh lo hi qe s.T := by
+    refine ⟨by simp [hc, mkCtx], by simp [hc, mkCtx], hNz, hNr, hT, hstab,
+      fun j h1 hj => r_ge_half_dr p f hR hNr j h1 hj,
+      ⟨le_trans (min_le_left _ _) (min_le_right _ _), le_trans (le_max_right _ _) (le_max_left _ _)⟩, ?_, ?_⟩
+    · intro a b ha hb
+      have hidx : a * p.Nr + b < s.T.size := by rw [hT]; exact idx_lt ha hb
+      have e : rd c.Nr s.T a b = aget s.T (a * p.Nr + b) := by simp [rd, aget, hc, mkCtx]
+      rw [e]
+      exact ⟨le_trans (le_trans (min_le_left _ _) (min_le_left _ _)) (minA_le s.T _ hidx),
+        le_trans (le_maxA s.T _ hidx) (le_trans (le_max_left _ _) (le_max_left _ _))⟩
+    · intro b hb
+      rw [← hg b hb]
+      exact ⟨le_trans (min_le_right _ _) (minA_le _ b (by rw [hgsz]; exact hb)),
+        le_trans (le_maxA _ b (by rw [hgsz]; exact hb)) (le_max_right _ _)⟩
+  have hsz : (coolStep c false Tsh qe s.T).size = p.Nz * p.Nr := by
+    unfold coolStep; exact size_sweep _ _ _ _ _ hT
+  obtain ⟨x, hx, hm⟩ := minA_mem (coolStep c false Tsh qe s.T) (by rw [hsz]; exact hNpos)
+  rw [hm, ← rd_of_index p.Nr _ x hx (by omega)]
+  have hxN : x < p.Nz * p.Nr := by rw [hsz] at hx; exact hx
+  have hdiv : x / p.Nr < p.Nz := by
+    rw [Nat.div_lt_iff_lt_mul (by omega)]; exact hxN
+  exact (maxprinciple2D_cool c Tsh lo hi qe s.T H (x / p.Nr) (x % p.Nr) hdiv (Nat.mod_lt _ (by omega))).1
+
+open Snow.S2D Snow.C07 in
+/-- **2D, every configuration (repaired sweep, stability hypotheses of C07)**: if the trigger temperature is
+below the initial temperature then `cnTemp ≥ T_nuc_min ≥ min(coldest point before the step, shelf temperature
+of the step, coldest top ghost value T_top + q_e·dz/k_eff)` (°C) – within one step's cooling INCLUDING the
+evaporative term of VISF; and the coldest point before the step was still above `cnTemp`. -/
+theorem cn_Tnuc_close_2D_general (p : Par ℝ) (f : Flags) (hf : f.inplace = false)
+    (hNz : 2 ≤ p.Nz) (hNr : 2 ≤ p.Nr) (hR : 0 < radius p)
+    (hstab : Stab (mkCtx p f).a0 (mkCtx p f).dz (mkCtx p f).dr
+      (p.K_shelf * (mkCtx p f).dz / (mkCtx p f).k0) ((mkCtx p f).Kw * (mkCtx p f).eSp / (mkCtx p f).k0))
+    (T0C : ℝ) (prof : List ℝ) (NtExp : ℕ) (Frand cn : ℝ) (h0 : cn < T0C) (r : Result ℝ)
+    (h : run p f T0C prof NtExp Frand (some cn) = .ok r) :
+    ∃ hi : r.iCool < prof.length,
+      r.TnucMin ≤ cn ∧
+      cn + 273.15 < Snow.minA (prev2D p f T0C prof NtExp r.iCool).T ∧
+      Min.min (Min.min (Snow.minA (prev2D p f T0C prof NtExp r.iCool).T - 273.15) prof[r.iCool])
+          (Snow.minA (topGhost2D p f r.iCool (prev2D p f T0C prof NtExp r.iCool).T) - 273.15) ≤ r.TnucMin := by
+  have hk : (kelvin : ℝ) = 273.15 := by simp only [kelvin, lit_real]; norm_num
+  obtain ⟨hc, _, _, _⟩ := run2D_cool p f T0C prof NtExp Frand (some cn) r h
+  obtain ⟨hT, _⟩ := stats_at_nucleation_instant_2D p f T0C prof NtExp Frand (some cn) r h
+  obtain ⟨hi, hle, hprev⟩ := (cn_trigger_first_2D p f T0C prof NtExp Frand cn r.iCool).mp hc
+  have hi' : r.iCool < (shelfK prof).length := by simpa [shelfK] using hi
+  have hNpos : 0 < p.Nz * p.Nr := Nat.mul_pos (by omega) (by omega)
+  have hprevgt : cn + 273.15 < Snow.minA (prev2D p f T0C prof NtExp r.iCool).T := by
+    cases hic : r.iCool with
+    | zero =>
+      obtain ⟨x, hx, hm⟩ := minA_mem (prev2D p f T0C prof NtExp 0).T (by rw [prev2D_size]; exact hNpos)
+      rw [hm]
+      simp only [prev2D, coolInit2D] at hx ⊢
+      rw [aget_replicate _ _ _ (by simpa using hx)]
+      simp only [zero_real, hk, zero_add]; linarith
+    | succ k => exact hprev k (by omega)
+  refine ⟨hi, by rw [hT, C08.minA_2D] at *; linarith, hprevgt, ?_⟩
+  rw [hT, C08.minA_2D, st2D_step p f T0C prof NtExp r.iCool hi']
+  have := coolStep2D_min_ge_general p f hf hNz hNr hR hstab NtExp r.iCool (prev2D p f T0C prof NtExp r.iCool)
+    (prev2D_size p f T0C prof NtExp r.iCool) ((shelfK prof)[r.iCool])
+  have hs : (shelfK prof)[r.iCool] = prof[r.iCool] + 273.15 := by simp [shelfK, hk]
+  rw [hs] at this ⊢
+  have e : Min.min (Min.min (Snow.minA (prev2D p f T0C prof NtExp r.iCool).T - 273.15) prof[r.iCool])
+      (Snow.minA (topGhost2D p f r.iCool (prev2D p f T0C prof NtExp r.iCool).T) - 273.15)
+      = Min.min (Min.min (Snow.minA (prev2D p f T0C prof NtExp r.iCool).T) (prof[r.iCool] + 273.15))
+          (Snow.minA (topGhost2D p f r.iCool (prev2D p f T0C prof NtExp r.iCool).T)) - 273.15 := by
+    rw [← min_sub_sub_right, ← min_sub_sub_right]; ring_nf
+  rw [e]
+  linarith
+
 end Snow.C11
